@@ -359,6 +359,15 @@ def dict_structural(doc):
             d4 = copy.deepcopy(doc)
             get(d4, path[:-1])['junk'] = 'x'
             yield 'add-key', pstr, d4
+            # keys that are not strings (the binary and YAML formats can carry them): renamed to / added as
+            for kk in (0, 1, 7, -1, 1.5, True, None, (1, 2)):
+                d7 = copy.deepcopy(doc)
+                par7 = get(d7, path[:-1])
+                par7[kk] = par7.pop(path[-1])
+                yield 'rename-nonstring-key', '%s>%r' % (pstr, kk), d7
+                d8 = copy.deepcopy(doc)
+                get(d8, path[:-1])[kk] = 2
+                yield 'add-nonstring-key', '%s+%r' % (pstr, kk), d8
         elif isinstance(par, list):
             par.pop(path[-1])
             yield 'delete', pstr, d2
